@@ -26,7 +26,7 @@ Samples == 1..Inst.samples
 FCfg(minq, kd, kq, ks) == [minq |-> minq, kd |-> kd, kq |-> kq, ks |-> ks]
 FCs == {FCfg(m, kd, kq, ks) : m \in Inst.minqs, kd \in BOOLEAN, kq \in BOOLEAN, ks \in BOOLEAN}
 B01(x) == IF x THEN 1 ELSE 0
-FcId(c) == 8 * B01(c.minq = 30) + 4 * B01(c.kd) + 2 * B01(c.kq) + B01(c.ks)
+FcId(c) == 8 * (IF c.minq = 0 THEN 0 ELSE IF c.minq = 20 THEN 1 ELSE 2) + 4 * B01(c.kd) + 2 * B01(c.kq) + B01(c.ks)
 
 (* passing = mapped, MAPQ >= threshold, not excluded as duplicate / QC-fail /  *)
 (* supplementary unless the keep flag is given                                *)
@@ -135,12 +135,12 @@ RECURSIVE ThSeq(_)
 ThSeq(S) == IF S = {} THEN <<>> ELSE LET x == CHOOSE y \in S : TRUE IN <<x>> \o ThSeq(S \ {x})
 
 FMQuick5 == << FM({}, 60), FM({}, 19), FM({"dup"}, 60), FM({"qcfail"}, 60), FM({"supp"}, 20) >>
-InstQuickFilter == [maxlen |-> 3, minqs |-> {20}, samples |-> 2, fm |-> FMQuick5, cv |-> << <<"A", "C">>, <<"C", None>>, <<"N", "T">> >>, th |-> THJoint]
+InstQuickFilter == [maxlen |-> 3, minqs |-> {0, 20}, samples |-> 2, fm |-> FMQuick5, cv |-> << <<"A", "C">>, <<"C", None>>, <<"N", "T">> >>, th |-> THJoint]
 InstQuickThresh == [maxlen |-> 4, minqs |-> {20}, samples |-> 2, fm |-> Plain, cv |-> CVSingle3, th |-> THQuick]
-InstThoroughFilter == [maxlen |-> 3, minqs |-> {20, 30}, samples |-> 2, fm |-> FMThorough, cv |-> CVFilterT, th |-> THJoint]
+InstThoroughFilter == [maxlen |-> 3, minqs |-> {0, 20, 30}, samples |-> 2, fm |-> FMThorough, cv |-> CVFilterT, th |-> THJoint]
 InstThoroughThresh == [maxlen |-> 4, minqs |-> {20}, samples |-> 2, fm |-> Plain, cv |-> CVSingle, th |-> THThorough]
 InstThoroughThresh3 == [maxlen |-> 5, minqs |-> {20}, samples |-> 3, fm |-> Plain, cv |-> SubSeq(CVSingle, 1, 3), th |-> THQuick]
-InstTiny == [maxlen |-> 2, minqs |-> {20, 30}, samples |-> 2, fm |-> FMQuick, cv |-> SubSeq(CVFilter, 1, 3), th |-> THJoint]
+InstTiny == [maxlen |-> 2, minqs |-> {0, 20, 30}, samples |-> 2, fm |-> FMQuick, cv |-> SubSeq(CVFilter, 1, 3), th |-> THJoint]
 
 THS == ThSeq(Inst.th)               \* constant: a fixed enumeration of the threshold configurations
 
